@@ -20,11 +20,13 @@ ASSUMPTIONS = [
 ]
 
 
-# ---------------------------------------------------------------- revision of the election code (Raft.v: raftrev)
-# The model carries two flags, one per election repair of C27 (fixes/C27-vote-adopts-term.diff,
-# fixes/C27-count-only-current-term-votes.diff).  Each check reads the raft.rs it runs against and selects the flags,
+# ---------------------------------------------------------------- revision of raft.rs (Raft.v: raftrev)
+# The model carries three flags: one per election repair of C27 (fixes/C27-vote-adopts-term.diff,
+# fixes/C27-count-only-current-term-votes.diff) and one for the acknowledgement repair of C28c / C29
+# (fixes/C28-count-only-current-term-acks.diff).  Each check reads the raft.rs it runs against and selects the flags,
 # so that the model it compares with, and the theorems that apply, are those of the code actually under test.
-REPAIRED_CLASSES = {"1": ("double-vote", "ack-below-voted-term"), "2": ("stale-vote-counted",)}
+REPAIRED_CLASSES = {"1": ("double-vote", "ack-below-voted-term"), "2": ("stale-vote-counted",), "3": ("commit-without-quorum",)}
+REV_NAMES = {"000": "rr_pinned", "110": "rr_before_ack_fix", "111": "rr_fixed"}
 
 
 def raft_src():
@@ -42,20 +44,29 @@ def _fn_body(text, name):
 
 
 def detect_rev(path=None):
-    """'ab': a = vote_request assigns self.term from the request before/when it records the vote,
-             b = the (Candidate, Vote, OK) arm of response() (or vote_received itself) compares request.term with self.term"""
+    """'abc': a = vote_request assigns self.term from the request before/when it records the vote,
+              b = the (Candidate, Vote, OK) arm of response() (or vote_received itself) compares request.term with self.term,
+              c = the (Leader, Heartbeat | Append(_), OK) arm of response() (or commit itself) compares request.term with
+                  self.term AND vote_received clears log_index / log_term / log_commit of the other rows when the node
+                  becomes Leader (both halves of fixes/C28-count-only-current-term-acks.diff; one half alone reads as 0 and
+                  shows up as a difference from the behaviour probe `?` and as state disagreements)"""
     try:
         text = open(path or raft_src(), errors="replace").read()
     except OSError:
-        return "00"
+        return "000"
     text = re.sub(r"//[^\n]*", "", text)
     vr = _fn_body(text, "vote_request")
     a = bool(re.search(r"self\s*\.\s*term\s*=\s*request\s*\.\s*term\s*;", vr))
     cmp_ = r"(?:request\s*\.\s*term\s*[=!]=\s*self\s*\.\s*term|self\s*\.\s*term\s*[=!]=\s*request\s*\.\s*term)"
     resp = _fn_body(text, "response")
     arm = re.search(r"\(\s*Candidate\s*,\s*Vote\s*,\s*OK\s*\)([^\n]*?)=>", resp)
-    b = bool(arm and re.search(cmp_, arm.group(1))) or bool(re.search(cmp_, _fn_body(text, "vote_received")))
-    return ("1" if a else "0") + ("1" if b else "0")
+    vrec = _fn_body(text, "vote_received")
+    b = bool(arm and re.search(cmp_, arm.group(1))) or bool(re.search(cmp_, vrec))
+    ack_arm = re.search(r"\(\s*Leader\s*,\s*(?:Heartbeat\s*\|\s*Append\s*\(\s*_\s*\)|Append\s*\(\s*_\s*\)\s*\|\s*Heartbeat)\s*,\s*OK\s*\)([^\n]*?)=>", resp)
+    guard = bool(ack_arm and re.search(cmp_, ack_arm.group(1))) or bool(re.search(cmp_, _fn_body(text, "commit")))
+    reset = all(re.search(r"\.\s*%s\s*=\s*0\s*;" % f, vrec) for f in ("log_index", "log_term", "log_commit"))
+    c = guard and reset
+    return ("1" if a else "0") + ("1" if b else "0") + ("1" if c else "0")
 
 
 def repaired_classes(rev):
@@ -65,6 +76,8 @@ def repaired_classes(rev):
         out.update(REPAIRED_CLASSES["1"])
     if rev[1] == "1":
         out.update(REPAIRED_CLASSES["2"])
+    if rev[2:3] == "1":
+        out.update(REPAIRED_CLASSES["3"])
     return out
 
 
@@ -145,7 +158,7 @@ def phase(ctx, exe, hx, name, args, prop, timeout=3000, rev=None):
         import json
         st = json.load(open(stats))
         if st.get("probe_rev") != rev:
-            dis.append(dict(what="%s: revision of the election code read from the source (%s) differs from the behaviour of the built code (%s)"
+            dis.append(dict(what="%s: revision of raft.rs read from the source (%s) differs from the behaviour of the built code (%s)"
                             % (name, rev, st.get("probe_rev")), case=raft_src()))
     except (OSError, ValueError):
         dis.append(dict(what="%s: no stats.json" % name))
@@ -162,7 +175,7 @@ def replay_file(ctx):
     texts = [v.get("what", "")] + [b.get("case", "") for b in v.get("broken", []) if isinstance(b, dict)]
     lines = []
     for t in texts:
-        m = re.search(r"events=(\d+ .*)$", t) or re.search(r"raft (?:run|flags) (?:r[01][01] )?(\d+ .*)$", t)
+        m = re.search(r"events=(\d+ .*)$", t) or re.search(r"raft (?:run|flags) (?:r[01]{2,3} )?(\d+ .*)$", t)
         if m:
             lines.append(m.group(1).strip())
     if not lines:
@@ -191,7 +204,7 @@ def run_property(ctx, prop, rule, quick, thorough):
         r = phase(ctx, exe, hx, name, args, prop, rev=rev)
         dis += r["dis"]; failures += r["failures"]; stats.append(r["stats"]); n += r["n"]
     dist, ev, nt, samples = merge_stats(stats)
-    dist["raft-revision:vote_term=%s,vote_match=%s" % (rev[0], rev[1])] = 1
+    dist["raft-revision:vote_term=%s,vote_match=%s,ack_term=%s" % (rev[0], rev[1], rev[2])] = 1
     known = {k["cls"] for k in vlib.known_findings() if k["property"] == prop and k["kind"] == "finding"} - gone
     seen = {f["cls"] for f in failures}
     return dict(
@@ -199,9 +212,10 @@ def run_property(ctx, prop, rule, quick, thorough):
         failures=failures, disagreements=dis[:20],
         known_probe={c: (c in seen) for c in known},
         assumptions=ASSUMPTIONS, trusted_extra=TRUSTED_EXTRA,
-        notes=["revision of the election code read from %s: vote_request adopts the term = %s, response() checks the term = %s "
+        notes=["revision of raft.rs read from %s: vote_request adopts the term = %s, response() checks the term of a vote = %s, "
+               "a leader counts only acknowledgements of its current term = %s "
                "(model revision %s; finding classes not accepted on this tree: %s)"
-               % (raft_src(), rev[0], rev[1], {"00": "rr_pinned", "11": "rr_fixed"}.get(rev, "mkRev " + rev), ", ".join(sorted(gone)) or "none"),
+               % (raft_src(), rev[0], rev[1], rev[2], REV_NAMES.get(rev, "mkRev " + rev), ", ".join(sorted(gone)) or "none"),
                "event lists: %d; failing histories are classified by the earliest KnownClass marker observed in the implementation's own trace "
                "(double-vote, stale-vote-counted, ack-from-diverged-log, old-term-commit, ack-below-voted-term, commit-without-quorum); a failure the model does not predict is never classified as known" % n],
     )
